@@ -357,11 +357,35 @@ func (e *c07env) installCfg(cfg config.Proxy, pc pcfg, routes string, rep *upRep
 // transfer is occasionally cut off when many harness processes run side by side), and so is a measurement that
 // cannot be the answer to ONE client request whatever the code does: the upstream counted more than one request
 // (Go's transport re-sends a request on a fresh connection when a pooled one has died — sockets get scarce on a
-// loaded machine). Only what persists over three measurements is reported and judged; `attempts` says how many
-// were needed.
+// loaded machine). Only what persists over five measurements with growing pauses (7.6 s in all) is reported and
+// judged; `attempts` says how many were needed.
+// a measurement is taken up to maxAttempts times, with these pauses in between
+const maxAttempts = 5
+
+// cases of this process whose measurement failed through all attempts (cases run one at a time)
+var persistent int
+
+var backoff = []time.Duration{100 * time.Millisecond, 500 * time.Millisecond, 2 * time.Second, 5 * time.Second}
+
 func (e *c07env) exchange(cfg config.Proxy, pc pcfg, routes string, rep *upReply, schemes map[string]auth.AuthScheme,
 	method string, raw []byte, keepBody bool) (resp *clientResp, hits int, up *upRec, attempts int, err error) {
-	for attempts = 1; attempts <= 3; attempts++ {
+	limit := maxAttempts
+	if persistent >= 10 {
+		// ten cases of this process have failed through all their measurements already: that is not an overloaded
+		// machine but the code under test; the remaining cases are measured twice and without pauses
+		limit = 2
+	}
+	defer func() {
+		if err != nil {
+			persistent++
+		}
+	}()
+	for attempts = 1; attempts <= limit; attempts++ {
+		if attempts > 1 && limit == maxAttempts {
+			// a machine that is overloaded right now (the websocket handler's one-second handshake deadline missed,
+			// a connection reset) is given time to recover: what is judged is what persists over growing pauses
+			time.Sleep(backoff[attempts-2])
+		}
 		if err = e.installCfg(cfg, pc, routes, rep, schemes); err != nil {
 			return nil, 0, nil, attempts, err
 		}
@@ -381,8 +405,8 @@ func (e *c07env) exchange(cfg config.Proxy, pc pcfg, routes string, rep *upReply
 			fmt.Fprintf(os.Stderr, "c07: attempt %d: upstream counted %d requests\n", attempts, hits)
 		}
 	}
-	if attempts > 3 {
-		attempts = 3
+	if attempts > limit {
+		attempts = limit
 	}
 	return resp, hits, up, attempts, err
 }
